@@ -276,6 +276,33 @@ def check_case(pyhf, case, backend, precision, props, rng, model_cache, extra_ba
             if wd != exp_d:
                 F.append(Finding("C12", "Workspace.data does not follow the model's channel order followed by its auxiliary data",
                                  {"case": slim, "got": wd, "expected": exp_d}, tags_base + ["wsdata"]))
+            # a SECOND measurement on the same Workspace object whose auxiliary data differ (shifted overrides, plus an auxdata
+            # override for one further alpha parameter): the data vector of each model carries that model's own auxiliary data,
+            # whichever model was asked first
+            try:
+                pars2 = copy.deepcopy(ent["spec"]["parameters"])
+                for pc2 in pars2:
+                    if pc2.get("auxdata"):
+                        pc2["auxdata"] = [a + 0.5 for a in pc2["auxdata"]]
+                conf = {pc2["name"] for pc2 in pars2}
+                extra = next((nm for nm in wm.config.par_order if nm not in conf and wm.config.param_set(nm).constrained
+                              and wm.config.param_set(nm).pdf_type == "normal" and wm.config.param_set(nm).n_parameters == 1 and nm != "lumi"), None)
+                if extra is not None:
+                    pars2.append({"name": extra, "auxdata": [0.25]})
+                ws_two = pyhf.Workspace(dict(copy.deepcopy(ws_spec), measurements=ws_spec["measurements"] + [
+                    {"name": "second", "config": {"poi": ent["poi"] or "", "parameters": pars2}}]))
+                kw2 = {k_: v_ for k_, v_ in kw.items() if k_ != "measurement_name"}
+                m_a = ws_two.model(measurement_name="meas", **kw2)
+                m_b = ws_two.model(measurement_name="second", **kw2)
+                for mm in (m_a, m_b, m_a):
+                    got_d = [float(x) for x in ws_two.data(mm)]
+                    want_d = [v for c in mm.config.channels for v in main_by_chan[c]] + [float(x) for x in mm.config.auxdata]
+                    if got_d != want_d:
+                        F.append(Finding("C12", "Workspace.data for one of two measurements of the same workspace does not carry that model's auxiliary data",
+                                         {"case": slim, "got": got_d, "expected": want_d}, tags_base + ["wsdata", "two_measurements"]))
+                        break
+            except Exception as e:  # noqa: BLE001
+                F.append(Finding("C12", f"two measurements on one workspace failed: {type(e).__name__}: {e}", {"case": slim}, tags_base + ["workspace", "two_measurements"]))
             if list(wm.config.par_order) != order or [float(x) for x in wm.config.suggested_init()] != [float(x) for x in init]:
                 F.append(Finding("C12", "model built through Workspace.model differs from the model built from the same specification",
                                  {"case": slim}, tags_base + ["wsmodel"]))
